@@ -130,6 +130,10 @@ func ClearRules() error {
 func LoadRules(rules []*Rule) (bool, error) {
 	rulesMap := make(map[string]*Rule, 16)
 	for _, rule := range rules {
+		if rule == nil || rule.Rule == nil {
+			logging.Warn("[outlier LoadRules] Ignoring nil rule")
+			continue
+		}
 		rulesMap[rule.Resource] = rule
 	}
 	updateRuleMux.Lock()
